@@ -246,7 +246,19 @@ func compileClass(s string) string {
 }
 
 func pinnedC01() []*pgen.Case {
-	return []*pgen.Case{pgen.PinnedPkgShadow("pin_pkg_shadow"), pgen.PinnedHelperRedeclared("pin_helper_redeclared"), pinnedNonComparable("pin_update_noncomparable"), pinnedGlobalFile("pin_global_file")}
+	return []*pgen.Case{pgen.PinnedPkgShadow("pin_pkg_shadow"), pgen.PinnedHelperRedeclared("pin_helper_redeclared"), pinnedNonComparable("pin_update_noncomparable"), pinnedGlobalFile("pin_global_file"),
+		pinnedVarsElsewhere("pin_vars_elsewhere", "../gen/out.go", "vcase/pin_vars_elsewhere/gen"),
+		pinnedVarsElsewhere("pin_vars_elsewhere_named", "./sub/out.go", "vcase/pin_vars_elsewhere_named/p/sub:other")}
+}
+
+// pinnedVarsElsewhere: a variables block whose output file lives in ANOTHER package and whose conversions need generated
+// helpers: the helpers are emitted into the output package and must be called unqualified from the init() there.
+func pinnedVarsElsewhere(name, file, pkg string) *pgen.Case {
+	src := "package p\n\ntype In struct{ V int; N Nest; L []Nest; M map[string]*Nest }\ntype Nest struct{ X int }\ntype Out struct{ V int; N NestOut; L []NestOut; M map[string]*NestOut }\ntype NestOut struct{ X int }\n\n" +
+		"// goverter:variables\n// goverter:output:file " + file + "\n// goverter:output:package " + pkg + "\nvar (\n\tConvert func(source In) Out\n\tConvertList func(source []In) []Out\n)\n"
+	c := pgen.RawCase(name, map[string]string{"p/input.go": src}, nil, []string{"./p"})
+	c.Feature("tag", "vars-elsewhere")
+	return c
 }
 
 // C18: emitted code is reflection-free, stateless and imports only what it needs.
